@@ -22,6 +22,12 @@ CHECK = dict(
             dict(name="quic-fuzz", run="^FuzzVerifC06QUIC$", quick=0, thorough=0, tier_only="thorough",
                  fuzz="^FuzzVerifC06QUIC$", fuzztime="90s", timeout_thorough=600, env={"GOMAXPROCS": "4"}),
         ]),
+        # DoQ streams of one connection read concurrently, from an external test
+        # package (independent of unexported names of the package)
+        dict(name="dnsserver-ext", dir=D, src="C06/dnsserver_ext", runs=[
+            dict(name="doq-streams", run="^TestVerifC06DoQStreams$", quick=150, thorough=3000, shards_thorough=3),
+            dict(name="doq-streams-1p", run="^TestVerifC06DoQStreams$", quick=100, thorough=1500, shards_thorough=2, env={"GOMAXPROCS": "1"}),
+        ]),
         dict(name="bindtodevice", dir="internal/bindtodevice", src="C06/bindtodevice", runs=[
             dict(name="btd-udp", run="^TestVerifC06BindToDevice$", quick=300, thorough=3000, shards_thorough=2),
             dict(name="btd-udp-1p", run="^TestVerifC06BindToDevice$", quick=200, thorough=1500, shards_thorough=2, env={"GOMAXPROCS": "1"}),
